@@ -70,4 +70,60 @@ theorem C19.prague_monotone (pm ps : Nat) (net : Forks.Net) (h h' : Nat) (hle : 
     (hp : Forks.prague pm ps net h = true) : Forks.prague pm ps net h' = true := by
   cases net <;> simp [Forks.prague] at * <;> omega
 
+/-! ### The current-txid helper across the activation height (parked transactions included) -/
+
+/-- **"Where the Prague rules are in force, and only there"**, for the transaction that runs in block `exec` - whether
+it was submitted in that block or parked in any earlier block `park` and drained now: under Prague the contract reads
+the txid supplied with *that* transaction, before Prague it reads nothing; the parking block does not matter (the
+model's answer to a `pbound` line does not take it; suite E sends `park` and `exec` on both sides of the height and
+across it, on signet in every run and on mainnet in the thorough tier). -/
+theorem C19.txid_seen_rule (net : String) (exec : Nat) (supplied : String) :
+    Forks.txidSeen Gen.PRAGUE_ACTIVATION_HEIGHT_MAINNET Gen.PRAGUE_ACTIVATION_HEIGHT_SIGNET (Forks.netOf net) exec supplied zeroHash =
+      if Forks.prague Gen.PRAGUE_ACTIVATION_HEIGHT_MAINNET Gen.PRAGUE_ACTIVATION_HEIGHT_SIGNET (Forks.netOf net) exec
+      then supplied else zeroHash := rfl
+
+/-- a transaction parked before the activation height and executed at or after it sees its own txid (signet) -/
+theorem C19.parked_across_signet (park exec : Nat) (supplied : String) (_hp : park < Gen.PRAGUE_ACTIVATION_HEIGHT_SIGNET)
+    (he : Gen.PRAGUE_ACTIVATION_HEIGHT_SIGNET ≤ exec) :
+    Forks.txidSeen Gen.PRAGUE_ACTIVATION_HEIGHT_MAINNET Gen.PRAGUE_ACTIVATION_HEIGHT_SIGNET .signet exec supplied zeroHash = supplied := by
+  simp [Forks.txidSeen, Forks.prague, he]
+
+/-- and on mainnet -/
+theorem C19.parked_across_mainnet (park exec : Nat) (supplied : String) (_hp : park < Gen.PRAGUE_ACTIVATION_HEIGHT_MAINNET)
+    (he : Gen.PRAGUE_ACTIVATION_HEIGHT_MAINNET ≤ exec) :
+    Forks.txidSeen Gen.PRAGUE_ACTIVATION_HEIGHT_MAINNET Gen.PRAGUE_ACTIVATION_HEIGHT_SIGNET .bitcoin exec supplied zeroHash = supplied := by
+  simp [Forks.txidSeen, Forks.prague, he]
+
+/-- before the activation height the helper answers nothing, whatever was supplied -/
+theorem C19.no_txid_before_prague (exec : Nat) (supplied : String) (he : exec < Gen.PRAGUE_ACTIVATION_HEIGHT_SIGNET) :
+    Forks.txidSeen Gen.PRAGUE_ACTIVATION_HEIGHT_MAINNET Gen.PRAGUE_ACTIVATION_HEIGHT_SIGNET .signet exec supplied zeroHash = zeroHash := by
+  have : ¬ Gen.PRAGUE_ACTIVATION_HEIGHT_SIGNET ≤ exec := by omega
+  simp [Forks.txidSeen, Forks.prague, this]
+
+/-- Where the RLP-hash rule is in force at the parking block, a second signer parking the same (nonce, target, data)
+does not disturb the first one's txid: the colliding case coincides with the plain rule. -/
+theorem C19.no_collision_under_rlp_hash (net : Forks.Net) (park exec : Nat) (supplied other : String)
+    (h : Forks.rlpHash Gen.RLP_HASH_ACTIVATION_HEIGHT_MAINNET Gen.RLP_HASH_ACTIVATION_HEIGHT_SIGNET net park = true) :
+    Forks.txidSeenColliding Gen.PRAGUE_ACTIVATION_HEIGHT_MAINNET Gen.PRAGUE_ACTIVATION_HEIGHT_SIGNET
+        Gen.RLP_HASH_ACTIVATION_HEIGHT_MAINNET Gen.RLP_HASH_ACTIVATION_HEIGHT_SIGNET net park exec supplied other zeroHash =
+      Forks.txidSeen Gen.PRAGUE_ACTIVATION_HEIGHT_MAINNET Gen.PRAGUE_ACTIVATION_HEIGHT_SIGNET net exec supplied zeroHash := by
+  simp [Forks.txidSeenColliding, Forks.txidSeen, h]
+
+/-- ... which is every height on every network but mainnet -/
+theorem C19.no_collision_off_mainnet (net : Forks.Net) (hn : net ≠ .bitcoin) (park : Nat) :
+    Forks.rlpHash Gen.RLP_HASH_ACTIVATION_HEIGHT_MAINNET Gen.RLP_HASH_ACTIVATION_HEIGHT_SIGNET net park = true := by
+  cases net with
+  | bitcoin => exact absurd rfl hn
+  | signet => simp [Forks.rlpHash, Gen.RLP_HASH_ACTIVATION_HEIGHT_SIGNET]
+  | other => rfl
+
+/-- **Known finding F21, machine-checked on the model**: on mainnet, for a pair parked below the RLP-hash activation
+height and executed under Prague, the first transaction reads the *other* submission's txid - the property's "supplied
+with that transaction" fails there; what holds is `C19.no_collision_under_rlp_hash`: the plain rule wherever the RLP-hash rule is in force at the parking block.
+The witness is replayed on the real code in every run (corpus case `prague_boundary_mainnet`). -/
+theorem C19.finding_F21_legacy_hash_collision :
+    Forks.txidSeenColliding Gen.PRAGUE_ACTIVATION_HEIGHT_MAINNET Gen.PRAGUE_ACTIVATION_HEIGHT_SIGNET
+        Gen.RLP_HASH_ACTIVATION_HEIGHT_MAINNET Gen.RLP_HASH_ACTIVATION_HEIGHT_SIGNET .bitcoin 923373 923374 "t26" "t27" zeroHash = "t27" := by
+  decide
+
 end Brc20
